@@ -49,7 +49,8 @@ ID = 'C06'
 LEVEL = 'other'
 P_TARGETS = ['cgsmiles.resolve:MoleculeResolver.resolve', 'cgsmiles.resolve:MoleculeResolver.resolve_disconnected_molecule',
              'cgsmiles.resolve:MoleculeResolver.edges_from_bonding_descrpt', 'cgsmiles.resolve:MoleculeResolver.squash_atoms',
-             'cgsmiles.graph_utils:annotate_fragments']
+             'cgsmiles.graph_utils:annotate_fragments', 'cgsmiles.resolve:MoleculeResolver.read_fragment_strings',
+             'cgsmiles.resolve:MoleculeResolver.__init__']
 BUDGET = {'quick': 30.0, 'thorough': 400.0}
 CHUNK = 20
 BOUNDS = {
